@@ -228,7 +228,7 @@ impl Scenario for C18 {
         RunEnd::Ok
     }
     fn rule(&self) -> String {
-        "A fixed corpus derived from VERIF_SEED: C05-style histories for the 19 deterministic types (all seeding routes, every buffer index, jump/long_jump, clone) and C12-style scripted-clock JitterRng histories (full clock-fault catalogue), every operation under catch_unwind. Each run yields one digest of all its outputs (or the marker `panic@op i`). The same harness is built from the current working tree in {opt-level 0, 3} x {overflow-checks + debug-assertions on, off} x {serde feature on, off} (quick: 4 configurations covering every pair of settings; thorough: all 8) and the per-run digest lists are compared; any difference is a violation. evaluations = runs x configurations; distinct_nontrivial = distinct (type, op kind, seeding route) signatures in the corpus.".into()
+        "A fixed corpus derived from VERIF_SEED: C05-style histories for the 19 deterministic types (all seeding routes, every buffer index, jump/long_jump, clone) and C12-style scripted-clock JitterRng histories (full clock-fault catalogue), every operation under catch_unwind. Each run yields one digest of all its outputs (or the marker `panic@op i`). The same harness is built from the current working tree in {opt-level 0, 3} x {overflow-checks + debug-assertions on, off} x {serde feature on, off} (quick: 4 configurations covering every pair of settings; thorough: all 8) and the per-run digest lists are compared; any difference is a violation. evaluations = runs x configurations; distinct_nontrivial = distinct (type, op kind, seeding route) signatures in the corpus. One corpus entry in 100 is a seeding sweep (1500..4000 constructions from consecutive/sparse/hashed seeds, one output each). Configurations: opt-level 0/3 x (overflow checks + debug assertions) x serde/std/log features, one with -C target-cpu=native; thorough adds opt-level 1 with overflow checks only and opt-level s with debug assertions only (thin LTO).".into()
     }
     fn assumptions(&self) -> Vec<String> {
         vec![
